@@ -76,7 +76,7 @@ MASYU_COMBINATOR = Grid(MultiDigit(base=3, digits=3))
 
 def serialize_masyu(problem):
     height = len(problem)
-    width = len(problem[0])
+    width = len(problem[0]) if height > 0 else 0
     return serialize_problem_as_url(MASYU_COMBINATOR, "masyu", height, width, problem)
 
 
